@@ -6,15 +6,16 @@ package codecmc
 
 import (
 	"bytes"
-	"runtime/debug"
-	"strings"
 	"crypto/rand"
 	"encoding/binary"
 	"encoding/gob"
 	"encoding/json"
 	"fmt"
 	"os"
+	"runtime/debug"
 	"sort"
+	"strings"
+	"sync"
 	"testing"
 
 	"github.com/nspcc-dev/dbft"
@@ -377,15 +378,36 @@ func TestC19(t *testing.T) {
 
 	// ---------------- 4. decoders fail cleanly on arbitrary bytes
 	nbytes := 0
+	// the decoders are fed from 16 goroutines (each gob decoder is independent)
+	type inp struct {
+		what string
+		data []byte
+	}
+	work := make(chan inp, 4096)
+	var wg sync.WaitGroup
+	var fmu sync.Mutex
+	for g := 0; g < 16; g++ {
+		wg.Add(1)
+		go func() {
+			defer wg.Done()
+			for in := range work {
+				if _, _, pan := decodePayload(in.data); pan != nil {
+					fmu.Lock()
+					r.fail("C19/decode/panic/payload", fmt.Sprintf("%v || %s of a valid encoding: % x", pan, in.what, in.data))
+					fmu.Unlock()
+				}
+				if pan := decodeBlock(in.data); pan != nil {
+					fmu.Lock()
+					r.fail("C19/decode/panic/block", fmt.Sprintf("%s: % x: %v", in.what, in.data, pan))
+					fmu.Unlock()
+				}
+			}
+		}()
+	}
 	try := func(what string, data []byte) {
 		nbytes++
 		r.evals++
-		if _, _, pan := decodePayload(data); pan != nil {
-			r.fail("C19/decode/panic/payload", fmt.Sprintf("%v || %s of a valid encoding: % x", pan, what, data))
-		}
-		if pan := decodeBlock(data); pan != nil {
-			r.fail("C19/decode/panic/block", fmt.Sprintf("%s: % x: %v", what, data, pan))
-		}
+		work <- inp{what, data}
 	}
 	try("empty", nil)
 	for a := 0; a < 256; a++ {
@@ -430,6 +452,8 @@ func TestC19(t *testing.T) {
 			try("extension", append(append([]byte(nil), enc...), x))
 		}
 	}
+	close(work)
+	wg.Wait()
 	samples = append(samples, fmt.Sprintf("byte strings fed to the payload and block decoders: %d (all strings of length<=2%s, every truncation / single-byte substitution / one-byte extension of %d valid encodings)", nbytes, map[bool]string{true: " and <=3", false: ""}[thorough], len(encodings)))
 
 	// ---------------- 5. blocks
